@@ -277,9 +277,13 @@ func cmdCheck(args []string) {
 		"violations":  violations,
 	}
 	if *prop != "" {
-		os.MkdirAll("/verif/evidence", 0o755)
+		evDir := os.Getenv("VERIF_EVIDENCE")
+		if evDir == "" {
+			evDir = "/verif/evidence"
+		}
+		os.MkdirAll(evDir, 0o755)
 		b, _ := json.MarshalIndent(ev, "", " ")
-		os.WriteFile(filepath.Join("/verif/evidence", *prop+".json"), b, 0o644)
+		os.WriteFile(filepath.Join(evDir, *prop+".json"), b, 0o644)
 	}
 	fmt.Printf("property=%s tier=%s functions=%d obligations=%d discharged=%d violations=%d wall=%.1fs\n",
 		*prop, *tier, len(results), len(all), discharged, violations, time.Since(start).Seconds())
